@@ -6,7 +6,7 @@
 From Coq Require Import NArith List Bool.
 Import ListNotations.
 From TP Require Import Base.PyVal Schema.PyLiteral Schema.CodeGen Schema.ModuleGen Schema.ModuleGenProofs
-     Gen.ModuleLayout.
+     Schema.BackRequired Schema.BackRequiredProofs Gen.ModuleLayout.
 Local Open Scope N_scope.
 
 Lemma layout_classes_complete defs main : module_classes module_layout defs main = defs ++ [main].
@@ -25,6 +25,12 @@ Proof.
   apply ordered_module_ok; assumption.
 Qed.
 
+Lemma all_class_toks_total cs : exists ts, all_class_toks cs = Some ts.
+Proof.
+  induction cs as [|c cs [ts IH]]; [eexists; reflexivity|].
+  cbn [all_class_toks]. destruct (class_toks_total c) as [t E]. rewrite E, IH. eexists. reflexivity.
+Qed.
+
 (* the generated layout produces text for every input on which both generators produce text *)
 Theorem generated_module_total defs main dt mt :
   defs_toks defs_joiner defs = Some dt -> class_toks main = Some mt ->
@@ -32,4 +38,13 @@ Theorem generated_module_total defs main dt mt :
 Proof.
   intros Ed Em. unfold module_toks. rewrite Ed, Em.
   destruct defs; cbn; eexists; reflexivity.
+Qed.
+
+(* ... and, no class description making schema_to_struct_code raise, for EVERY input *)
+Theorem generated_module_always defs main :
+  exists toks, module_toks module_layout defs_joiner defs main = Some toks.
+Proof.
+  destruct (all_class_toks_total defs) as [ts Ets]. destruct (class_toks_total main) as [mt Em].
+  apply (generated_module_total defs main (join [TRaw [10; 10; 10]] ts) mt); [|exact Em].
+  unfold defs_toks, defs_joiner. rewrite Ets. reflexivity.
 Qed.
